@@ -32,7 +32,7 @@ PROPS = {
     'C19': 'props.c19', 'C20': 'props.c20',
 }
 
-RUN_WALL_LIMIT = 60  # seconds of wall time for one simulated run before it is declared stuck
+RUN_WALL_LIMIT = 120  # seconds of wall time for one simulated run before it is declared stuck
 
 
 class WallTimeout(BaseException):
